@@ -87,9 +87,11 @@ def numericFix (n : Nat) : Nat :=
   if n = 0 then 0xFFFD
   else if 0x10FFFF < n then 0xFFFD
   else if 0xD800 ≤ n && n ≤ 0xDFFF then 0xFFFD
-  else match lookupNat n c1Table with
+  else if 0x80 ≤ n && n ≤ 0x9F then
+    match lookupNat n c1Table with
     | some m => m
     | none => n
+  else n
 
 def digitsVal (base : Nat) (ds : List Nat) : Nat := ds.foldl (fun a d => a * base + digitVal d) 0
 
